@@ -758,9 +758,15 @@ func ghost_Build_argsReady(g *Graph, injector *Injector) {
 	vs.Assert("hint_argument_nodes_used", vs.Forall(len(topoOrder(g)), func(j int) bool {
 		return vs.Implies(topoOrder(g)[j].providerSpec == nil, len(g.edges[topoOrder(g)[j]]) >= 1 || topoOrder(g)[j] == g.returnValue.node)
 	}))
+	vs.Assert("hint_argument_edges_name_value_0", vs.Forall(len(topoOrder(g)), func(j int) bool {
+		return vs.Implies(topoOrder(g)[j].providerSpec == nil && len(g.edges[topoOrder(g)[j]]) >= 1, g.edges[topoOrder(g)[j]][0].provideArgSrc == 0)
+	}))
+	vs.Assert("hint_first_argument_edge_wired", vs.Forall(len(topoOrder(g)), func(j int) bool {
+		return vs.Implies(topoOrder(g)[j].providerSpec == nil && len(g.edges[topoOrder(g)[j]]) >= 1, edgeWired(g, topoOrder(g)[j], 0))
+	}))
 	vs.Assert("hint_used_argument_nodes_referenced", vs.Forall(len(topoOrder(g)), func(j int) bool {
 		return vs.Implies(topoOrder(g)[j].providerSpec == nil && len(g.edges[topoOrder(g)[j]]) >= 1,
-			g.edges[topoOrder(g)[j]][0].provideArgSrc == 0 && edgeWired(g, topoOrder(g)[j], 0) && topoOrder(g)[j].returnValues[0].refCounter > 0)
+			edgeSlot(g, topoOrder(g)[j], 0).Param == topoOrder(g)[j].returnValues[0] && topoOrder(g)[j].returnValues[0].refCounter > 0)
 	}))
 	vs.Assert("hint_returned_argument_referenced", vs.Implies(g.returnValue.node.providerSpec == nil,
 		g.returnValue.returnIndex == 0 && injector.Return != nil && injector.Return.Param == g.returnValue.node.returnValues[0] &&
